@@ -463,3 +463,48 @@ Proof.
   split; [apply consistentb_sound; reflexivity|].
   split; [split; [intros k l e; tauto | intros k l; lia] | reflexivity].
 Qed.
+
+(* ---- potential certificate (model/Search.v pot_clauses): a consistent potential that vanishes on
+   goals and equals the reported value at the start proves the value minimal ---- *)
+Theorem pot_cert_sound g start phi r :
+  wf_graph g -> (start < g_n g)%nat -> pot_cert g start phi r = true ->
+  r <> None /\ valid_plan g start r.
+Proof.
+  intros Hwf Hs H. unfold pot_cert, pot_clauses in H.
+  destruct r as [[[path acts] v]|]; [|simpl in H; discriminate].
+  split; [discriminate|]. simpl.
+  destruct path as [|s0 rest]; [simpl in H; discriminate|].
+  destruct (path_edges g s0 rest acts) as [p|] eqn:Pe.
+  2:{ simpl in H. rewrite !andb_false_r in H. discriminate. }
+  simpl in H. repeat (apply andb_true_iff in H; destruct H as [H ?]).
+  apply Nat.eqb_eq in H; subst s0.
+  destruct (path_edges_sound _ _ _ _ _ Pe) as [W [V M]].
+  exists p, (last (start :: rest) start). repeat split; auto.
+  - apply Z.eqb_eq; auto.
+  - intros p' u' W' G'.
+    match goal with Hc : _ && (phi start =? v) = true |- _ => apply andb_true_iff in Hc; destruct Hc as [Hc He] end.
+    match goal with Hc : consistentb _ _ = true |- _ => apply consistentb_sound in Hc;
+      pose proof (consistent_walk g start phi Hwf Hs Hc start p' u' Hs W') as B;
+      destruct (Hc u' ltac:(apply (walk_wf _ _ _ _ Hwf Hs W'))) as [Hz _]; specialize (Hz G') end.
+    match goal with He : (phi start =? v) = true |- _ => apply Z.eqb_eq in He end. lia.
+Qed.
+
+Theorem bfs_pot_cert_sound g start phi r :
+  wf_graph g -> (start < g_n g)%nat -> bfs_pot_cert g start phi r = true ->
+  r <> None /\ valid_bfs_plan g start r.
+Proof.
+  intros Hwf Hs H. unfold bfs_pot_cert in H.
+  apply pot_cert_sound in H; [|apply wf_unit; auto | exact Hs]. destruct H as [Hn H].
+  destruct r as [[path acts]|]; simpl in *; [|congruence]. split; [discriminate|].
+  destruct H as [p [u [W [G [V [M [C Hmin]]]]]]].
+  destruct (unit_walk _ _ _ _ W) as [p' [W' E]]. subst p.
+  exists p', u. rewrite verts_unit in V. rewrite acts_unit in M. rewrite cost_unit in C.
+  repeat split; auto. intros p2 u2 W2 G2.
+  specialize (Hmin _ _ (walk_unit _ _ _ _ W2) G2). rewrite cost_unit in Hmin. lia.
+Qed.
+
+Example pot_cert_example :
+  pot_cert ex_graph 0 (hz_of [3; 2; 2; 0; 0]) (Some ([0; 1; 2; 3]%nat, [0; 0; 0]%nat, 3)) = true /\
+  pot_cert ex_graph 0 (hz_of [3; 2; 2; 0; 0]) (Some ([0; 2; 3]%nat, [1; 0]%nat, 6)) = false /\
+  bfs_pot_cert ex_graph 0 (hz_of [2; 2; 1; 0; 0]) (Some ([0; 2; 3]%nat, [1; 0]%nat)) = true.
+Proof. repeat split; reflexivity. Qed.
